@@ -1,11 +1,12 @@
 \* C14 design-level check, universe C (thorough): variations of A -- 8x8 die, cycle and star around the
 \* fixed module, two places of the fixed module (one beyond the spans of the movable ones), one step per dimension;
-\* the fixed module is the square or a fixed terminal (a pin without area).
+\* the fixed module is the square or a fixed terminal (a pin without area);
+\* one profile has a module whose disc fits exactly (span 0).
 SPECIFICATION Spec
 CONSTANTS
   HalfSet <- HalfA
   Profiles <- ProfA
-  AreaProfiles <- AreaAT
+  AreaProfiles <- AreaAX
   Graphs = {"cycle", "starL"}
   FixSet <- FixAT
   TrialSet = {1}
